@@ -142,7 +142,9 @@ def stripPrefix (pre p : List Nat) : Option (List Nat) :=
 destination, `If` tokens; `none` = locks confirmed. -/
 abbrev Gate := Bool → List Nat → List Nat → Option (List Nat) → Option Nat
 
-/-- `Handler.handleCopyMove`: new tree and HTTP status. -/
+/-- `Handler.handleCopyMove`: new tree and HTTP status.  After the textual `dst == src` test the
+handler compares the cleaned names (`pathContains`): a destination that is the source or one of its
+ancestors, and for MOVE also a destination inside the source, is refused with 403. -/
 def handle (gate : Gate) (pre : List Nat) (t : Tree) (r : Req) : Tree × Nat :=
   match r.dest with
   | .absent => (t, 400)
@@ -157,6 +159,8 @@ def handle (gate : Gate) (pre : List Nat) (t : Tree) (r : Req) : Tree × Nat :=
       | some dst =>
         if dst = [] then (t, 502)
         else if dst = src then (t, 403)
+        -- cleaned names: same resource, destination contains the source, MOVE into own subtree
+        else if under (clean dst) (clean src) ∨ (r.isMove ∧ under (clean src) (clean dst)) then (t, 403)
         else if !r.isMove then
           match gate false [] dst r.ifTokens with
           | some st => (t, st)
@@ -170,23 +174,6 @@ def handle (gate : Gate) (pre : List Nat) (t : Tree) (r : Req) : Tree × Nat :=
           | none =>
             if r.depth ≠ .absent ∧ r.depth ≠ .infinity then (t, 400)
             else moveFiles t (clean src) (clean dst) (r.overwrite == .t)
-
-/-! ### The proposed fix: compare cleaned paths, refuse overlapping source and destination -/
-
-/-- `handle` with the additional check of the minimal fix: a COPY whose destination is the
-source or one of its ancestors, and a MOVE whose source and destination are the same
-resource or contain one another, are refused with 403 before touching the filesystem. -/
-def handleFixed (gate : Gate) (pre : List Nat) (t : Tree) (r : Req) : Tree × Nat :=
-  match r.dest with
-  | .parsed host dpath =>
-    if host = .other then handle gate pre t r else
-    match stripPrefix pre r.path, stripPrefix pre dpath with
-    | some src, some dst =>
-      if dst ≠ [] ∧ (under (clean dst) (clean src) ∨ (r.isMove ∧ under (clean src) (clean dst)))
-      then (t, 403)
-      else handle gate pre t r
-    | _, _ => handle gate pre t r
-  | _ => handle gate pre t r
 
 /-! ### `memLS` without expiry, as the gate used by the driver -/
 
